@@ -87,6 +87,23 @@ def gen(tier, rng):
                     b[j] = rng.choice([0, 255, rng.randrange(256), a[j]])
                 yield (f"ct.arr8.lt {cxhx(a)} {cxhx(b)}", "arr8.order")
                 yield (f"ct.arr8.ge {cxhx(a)} {cxhx(b)}", "arr8.order")
+        # borrow/carry entering a limb that is all ff (or all 00) in both operands, for limb widths 1, 2, 4, 8, 16 aligned
+        # from the least-significant end: a multi-byte-limb subtraction that computes `x < y + borrow` wraps exactly here
+        for w in (1, 2, 4, 8, 16):
+            for i in range(1, n // w):
+                lo, hi = n - (i + 1) * w, n - i * w
+                for fill in (0xff, 0x00):
+                    a = bytearray(base)
+                    b = bytearray(base)
+                    a[lo:hi] = bytes([fill]) * w
+                    b[lo:hi] = bytes([fill]) * w
+                    low_b = int.from_bytes(rng.rbytes(n - hi), "big") | 1
+                    low_a = low_b - 1 if (i + w) % 2 else rng.randrange(low_b)
+                    a[hi:] = low_a.to_bytes(n - hi, "big")
+                    b[hi:] = low_b.to_bytes(n - hi, "big")
+                    for x, y in ((a, b), (b, a)):
+                        yield (f"ct.arr8.lt {cxhx(x)} {cxhx(y)}", "arr8.limbrun")
+                        yield (f"ct.arr8.ge {cxhx(x)} {cxhx(y)}", "arr8.limbrun")
         # unequal lengths
         yield (f"ct.slice8.eq {cxhx(base)} {cxhx(base + b'x')}", "slice.lenmismatch")
         yield (f"ct.slice8.eq {cxhx(base + b'x')} {cxhx(base)}", "slice.lenmismatch")
